@@ -203,9 +203,19 @@ def run_cold_order(case):
     importlib.reload(chords)
     base, e0 = call(chords.from_shorthand, root + sh)
     importlib.reload(chords)
+    # names that are refused, polychord-shaped ones among them, were tried before
+    for bad in ("Cm|Xq", "H|C", "C|", "|", "Cfoo|CM", "CM|Cfoo", "C|D|Ebad", "Zz|Zz", "Cm/", "/C", "C7|Hm"):
+        call(chords.from_shorthand, bad)
+    # the key helpers of the same module were used on that root before (a refusal for roots that are no key)
+    call(chords.triads, root)
+    call(chords.sevenths, root)
     first, e1 = call(chords.from_shorthand, root + pre)
     if e1 is None and isinstance(first, list) and len(first) >= 3:
-        call(chords.determine, list(first), True)
+        named, e2 = call(chords.determine, list(first), True)
+        # ... and every name given for the earlier chord was built again from its name
+        for nm in (named if e2 is None and isinstance(named, list) else []):
+            if isinstance(nm, str):
+                call(chords.from_shorthand, nm)
     chord, e = call(chords.from_shorthand, root + sh)
     S.trans(3)
     if (e0 is None) != (e is None) or (e is None and chord != base):
